@@ -480,6 +480,16 @@ func (s *Sim) allDelivered() bool {
 // is certainly cached only while a settled direct subscriber holds it.
 func (s *Sim) refetchClass(r *Req) int8 {
 	res := s.W.Res[r.Name]
+	if res != nil && !res.IsQuery && r.Query != "" {
+		// a get with a query for a resource that is not a query resource: only
+		// possible after a service answered with a stray query (hostile profile);
+		// what the gateway keeps under that query is not modelled
+		for _, q := range s.tr.reqs {
+			if q.Type == "get" && q.Name == r.Name && q.StrayQuery {
+				return 1
+			}
+		}
+	}
 	// normOf: the cache key a get with this query ends up under. Without a
 	// normalised query in the answer (errors, unknown names) every raw query
 	// keeps an entry of its own.
